@@ -861,7 +861,7 @@ class FluidMixture(object):
             
             """
             # Get the current value of the partition coefficients
-            (K_vsi, yk) = dbm_f.kvsi_hydrate(T_hyd, P, m_gases)
+            (K_vsi, yk) = dbm_f.kvsi_hydrate(T_hyd[0], P, m_gases)
             
             return np.sum(yk / K_vsi) - 1
         
